@@ -1,6 +1,7 @@
 package main
 
 import (
+	"strconv"
 	"fmt"
 	"reflect"
 	"sort"
@@ -359,6 +360,27 @@ func c10Draw(r *simrt.Rng, vg *gen.G, s *treeState, faults bool) (Op, bool) {
 	}
 	if !ok {
 		return Op{}, false
+	}
+	if ft := lt.Field.Type; enc == "tv" && ft.Kind() == reflect.Ptr && ft.Elem().Kind() == reflect.Float64 && r.Intn(2) == 0 {
+		// a decimal64 leaf may also arrive as gNMI decimal_val (digits, precision), including
+		// digit strings beyond 2^53 that no float64 holds exactly: the leaf must then hold the
+		// float64 nearest to digits / 10^precision
+		digits := []int64{9007199254740993, -9007199254740995, 123456789012345679, 9223372036854775807, 4503599627370497, 1, -25, 1500}[r.Intn(8)]
+		prec := uint32(1 + r.Intn(4))
+		ds := strconv.FormatInt(digits, 10)
+		neg := ""
+		if ds[0] == '-' {
+			neg, ds = "-", ds[1:]
+		}
+		for len(ds) <= int(prec) {
+			ds = "0" + ds
+		}
+		f, perr := strconv.ParseFloat(neg+ds[:len(ds)-int(prec)]+"."+ds[len(ds)-int(prec):], 64)
+		if perr == nil {
+			tv = &gpb.TypedValue{Value: &gpb.TypedValue_DecimalVal{DecimalVal: &gpb.Decimal64{Digits: digits, Precision: prec}}}
+			op.A["want"] = model.Render(reflect.ValueOf(f))
+			op.A["decimal"] = "1"
+		}
 	}
 	op.A["enc"] = enc
 	if faults && r.Intn(3) == 0 {
